@@ -36,6 +36,8 @@ class SpMat:
     @property
     def T(self): return SpMat(self.a.T, self.format)
     def transpose(self): return self.T
+    def conj(self): return self
+    conjugate = conj
     @property
     def A(self): return self.a
     @property
